@@ -123,6 +123,13 @@ def ops_for(case):
     db = os.path.join(vlib.DB, "phreeqc.dat")
     ops = [["spy"], ["c", "LoadDatabase", 0, db], ["events", 0], ["c", "SetOutputStringOn", 0, 1]]
     k = case["kind"]
+    if k == "RunFileMissing" or (k in ("RunString", "RunFile", "Accumulate") and int(vlib.key_of(case["text"])[:2], 16) % 4 == 0):
+        # an earlier, non-failing call that leaves WARNINGS (and, for half of them, an accessor error line) behind: the error and warning
+        # strings after the call under test must describe that call only
+        ops.append(["c", "RunString", 0, "SOLUTION 8\n Na 1\n Clx 3\nSELECTED_OUTPUT 1\n -totals Xx Na\nEND\n"])
+        if int(vlib.key_of(case["text"])[2:4], 16) % 2 == 0:
+            ops.append(["cval", 0, 9999, 0])
+        ops.append(["events", 0])
     if k == "RunString":
         ops.append(["c", "RunString", 0, case["text"]])
     elif k == "RunFile":
